@@ -1622,6 +1622,12 @@ class Interp:
                 return round(x)
             return self.lib.round_half_even(self, x)
         if name == "sorted":
+            # only sequences of concrete real numbers (the order of symbolic values is not a value the engines carry)
+            x = args[0] if args else None
+            if isinstance(x, Arr) and V.is_conc(x.n):
+                x = x.to_list()
+            if isinstance(x, (list, tuple)) and not kwargs and all(V.is_conc(v) and not isinstance(v, Cx) for v in x):
+                return sorted(x)
             raise Unsupported("sorted")
         if name == "dir":
             return DirResult(args[0])
